@@ -130,6 +130,18 @@ pub fn programs() -> Vec<Prog> {
         let src = "struct VBuiltins { @builtin(vertex_index) vi: u32, @builtin(instance_index) ii: u32 };\nstruct FBuiltins { @builtin(position) fpos: vec4<f32>, @builtin(front_facing) ff: bool };\nstruct CBuiltins { @builtin(global_invocation_id) gid: vec3<u32>, @builtin(local_invocation_index) li: u32 };\nstruct HostToo { k: vec4<f32> };\n@group(0) @binding(0) var<uniform> host_too: HostToo;\n@vertex fn vs_main(v: VBuiltins) -> @builtin(position) vec4<f32> {\n    return host_too.k;\n}\n@fragment fn fs_main(f: FBuiltins) -> @location(0) vec4<f32> {\n    return vec4<f32>(1.0);\n}\n@compute @workgroup_size(2, 3) fn cs_main(c: CBuiltins) {\n}\n".to_string();
         out.push(Prog { key: "roles=builtin-only".into(), src, structs: vec![RoleStruct { name: "VBuiltins", host: false, rts: false }, RoleStruct { name: "FBuiltins", host: false, rts: false }, RoleStruct { name: "CBuiltins", host: false, rts: false }, RoleStruct { name: "HostToo", host: true, rts: false }] });
     }
+    // modules without a vertex entry point (fragment stage only / compute only / no entry at all): the switches apply to the
+    // structs of the module, whatever stages its entry points belong to
+    {
+        let decls = "struct FragIn { @location(0) c: vec4<f32>, @builtin(position) fpos: vec4<f32>, @location(1) uv: vec2<f32> };\nstruct CompIn { @builtin(global_invocation_id) gid: vec3<u32> };\nstruct HostOnly2 { k: vec4<f32>, m: mat4x4<f32> };\n@group(0) @binding(0) var<uniform> host_only2: HostOnly2;\n";
+        let fs = "@fragment fn fs_main(f: FragIn) -> @location(0) vec4<f32> {\n    return host_only2.k;\n}\n";
+        let cs = "@compute @workgroup_size(2, 3) fn cs_main(c: CompIn) {\n}\n";
+        let role = |name: &'static str, host: bool| RoleStruct { name, host, rts: false };
+        out.push(Prog { key: "roles=stage-mix-fragment-only".into(), src: format!("{decls}{fs}"), structs: vec![role("FragIn", false), role("HostOnly2", true)] });
+        out.push(Prog { key: "roles=stage-mix-compute-only".into(), src: format!("{decls}{cs}"), structs: vec![role("CompIn", false), role("HostOnly2", true)] });
+        out.push(Prog { key: "roles=stage-mix-fragment-compute".into(), src: format!("{decls}{fs}{cs}"), structs: vec![role("FragIn", false), role("CompIn", false), role("HostOnly2", true)] });
+        out.push(Prog { key: "roles=stage-mix-no-entry".into(), src: decls.to_string(), structs: vec![role("HostOnly2", true)] });
+    }
     // a struct nested in a host struct at each member position, with members of repeated types around it; the nested
     // struct is also a vertex input / only nested
     for pos in 0..3usize {
@@ -221,7 +233,7 @@ pub fn run(tier: &str) -> i32 {
     let mut progs = programs();
     if !thorough {
         // quick: every single component and the full set, plus runtime-array variants
-        progs.retain(|p| p.key.len() <= "roles=XX".len() || p.key.contains("VHBFNW") || p.key.contains('R') || p.key.contains("nested-both") || p.key.contains("matrix-members") || p.key.contains("builtin-only"));
+        progs.retain(|p| p.key.len() <= "roles=XX".len() || p.key.contains("VHBFNW") || p.key.contains('R') || p.key.contains("nested-both") || p.key.contains("matrix-members") || p.key.contains("builtin-only") || p.key.contains("stage-mix"));
         let _ = 0;
     }
     let configs = all_configs_192();
